@@ -16,7 +16,7 @@ RULE = ('one run = one seeded history of up to 30 database operations on one eng
         'never-asserted ones, ground facts, patterns ground / partial / all-variable / repeated-variable; each op goes through a seeded route '
         '(assert_fact API, query() API, compiled wrapper taking the goal as argument, compiled clause with the goal inline) and form (inline term '
         'or a variable bound to it); retracts are exhausted, abandoned after k answers (close/drop) or held suspended across other ops. '
-        'A case = one operation compared with the list model followed by a full read-back of all 8 predicates; non-trivial = the predicate '
+        'A case = one operation compared with the list model followed by a full read-back of all 8 predicates, with all arguments unbound and with each argument position bound to every value stored there now or earlier; non-trivial = the predicate '
         'had >= 1 fact or the op changed the store; distinct = hash of (op kind, route, form, arity, pattern shape, store size bucket, #answers)')
 ASSUMPTIONS = [
     'ground facts only (non-ground stored facts are C13); no mutation of a predicate while one of its enumerations is suspended (that is C14)',
@@ -26,7 +26,7 @@ ASSUMPTIONS = [
 COMPONENTS = {'real': ['yldprolog.engine fact store, builtins asserta/assertz/retract/retractall, clear, query', 'compiled wrapper clauses (real compiler output)'],
               'stub': ['consumer / scheduler of the retract generators'],
               'oracle': ['ordered-list model (ypsim.models.FactStore) compared op by op, full read-back after every op']}
-REQUIRED_PROBES = ('op_assert', 'op_retract', 'op_retractall', 'op_query', 'op_clear', 'route_fact', 'route_query', 'route_wrap', 'route_inline',
+REQUIRED_PROBES = ('bound_argument_readbacks', 'op_assert', 'op_retract', 'op_retractall', 'op_query', 'op_clear', 'route_fact', 'route_query', 'route_wrap', 'route_inline',
                    'form_bound', 'retract_abandoned', 'retract_suspended_across_ops', 'op_on_predicate_without_facts', 'arity0_ops')
 
 KEYS = [('p', 0), ('p', 1), ('p', 2), ('q', 1), ('r', 3), ('flag', 0), ('zz', 1), ('yy', 0)]
@@ -82,6 +82,13 @@ def gen(seed, tier):
         route = rng.choice(kinds)
         form = 'bound' if (route in ('query', 'wrap') and rng.random() < p_bound) else 'inline'
         return route, form
+    if rng.random() < 0.25:
+        # bulk mode: one predicate gets many facts first (size-dependent paths: indexes, caches)
+        ki = rng.choice([k for k in range(ASSERTABLE) if KEYS[k][1] >= 1])
+        keyset = [ki] + keyset[:1]
+        for _ in range(rng.randrange(8, 15)):
+            row = [rng.choice(VALS[:small_vals + 2]) for _ in range(KEYS[ki][1])]
+            ops.append(['assert', rng.random() < 0.2, 'fact', 'inline', ki, row])
     for _ in range(rng.randrange(2, 31)):
         ki = rng.choice(keyset)
         ar = KEYS[ki][1]
@@ -142,6 +149,7 @@ class Exec:
         self.yp = YP()
         self.load_wrappers()
         self.model = FactStore()
+        self.seen = {}
         self.task = None      # suspended retract: dict(task, key, pattern (model), pargs (engine), held, snap, pos)
 
     def load_wrappers(self):
@@ -182,6 +190,27 @@ class Exec:
             if got != want:
                 return {'predicate': '%s/%d' % (name, ar), 'engine': [[TM.show(x) for x in r] for r in got[:8]],
                         'model': [[TM.show(x) for x in r] for r in want[:8]]}
+            # the same with one argument bound: every value stored now or seen earlier in that position
+            # (a query enumerates the *matching* facts in list order)
+            for pos in range(ar):
+                seen = self.seen.setdefault((name, ar, pos), [])
+                for row in self.model.rows((name, ar)):
+                    if row[pos] not in seen and len(seen) < 6:
+                        seen.append(row[pos])
+                for val in seen:
+                    vs = [self.yp.variable() for _ in range(ar)]
+                    args = list(vs)
+                    args[pos] = TM.build(self.yp, val, {})
+                    got = []
+                    for _ in self.yp.query(name, args):
+                        got.append(self.observe(args))
+                        if len(got) > 200:
+                            break
+                    want = [TM.canon(row) for row in self.model.rows((name, ar)) if row[pos] == val]
+                    self.log.count('bound_argument_readbacks')
+                    if got != want:
+                        return {'predicate': '%s/%d with argument %d bound to %s' % (name, ar, pos + 1, TM.show(val)),
+                                'engine': [[TM.show(x) for x in r] for r in got[:8]], 'model': [[TM.show(x) for x in r] for r in want[:8]]}
         return None
 
     def model_matches(self, key, pattern):
